@@ -22,7 +22,7 @@ Print Assumptions C06_tie_flush_event_unconditional.
    before f has been processed (= dispatched to the sinks, C03_sink_loop) before it: the processed
    sequence of the thread is a prefix of what it committed and contains f *)
 Theorem C06_own_thread : forall K s0 ops,
-  (forall t, th s0 t = thr0 /\ issued s0 t = [] /\ delivered s0 t = []) -> flags s0 = [] -> pos_ops ops ->
+  (forall t, fresh_thr (th s0 t) /\ issued s0 t = [] /\ delivered s0 t = []) -> flags s0 = [] -> pos_ops ops ->
   let s := run K s0 ops in
   forall f, In f (flags s) -> exists t d1 d2,
     delivered s t = d1 ++ f :: d2 /\
